@@ -86,7 +86,11 @@ def run_plan(pid, tier, work, plan):
            "violations_of_other_properties_seen": others, "samples": samples, "exhaustive": bool(mcs),
            "known_findings_seen": {k: c for k, (w_, c) in v.known.items()}}
     if plan.get("extra"):
-        cov.update(plan["extra"](work, v, thorough) or {})
+        ex = plan["extra"](work, v, thorough) or {}
+        cov["states"] += ex.pop("_states", 0)
+        cov["transitions"] += ex.pop("_trans", 0)
+        cov["traces_validated_against_impl"] += ex.pop("_traces", 0)
+        cov.update(ex)
     rc = v.finish()
     vlib.write_evidence(pid, tier, plan.get("level", "model_checking"), cov, plan.get("assumptions", []), time.time() - t0,
                         len(v.violations))
